@@ -582,131 +582,146 @@ func (x *Exec) loopOrdinalOf(fr *Frame, li *loopInfo) (int, ast.Node) {
 	return x.env.loopOrdinal(fn, best), best
 }
 
-// cellsStoredIn collects local cells that may be assigned in the loop body (including through closures).
-func (x *Exec) cellsStoredIn(fr *Frame, li *loopInfo) map[*Cell]bool {
+// cellsStoredIn collects local cells that may be assigned in the loop body, including through
+// closures called (transitively) from it.
+func (x *Exec) cellsStoredIn(fr *Frame, li *loopInfo, st *State) map[*Cell]bool {
 	out := map[*Cell]bool{}
-	var rootCell func(f *Frame, fn *ssa.Function, v ssa.Value, bind func(*ssa.FreeVar) Val) *Cell
-	rootCell = func(f *Frame, fn *ssa.Function, v ssa.Value, bind func(*ssa.FreeVar) Val) *Cell {
-		for {
-			switch a := v.(type) {
-			case *ssa.Alloc:
-				if f != nil {
-					return f.cells[a]
-				}
-				return nil
-			case *ssa.FieldAddr:
-				v = a.X
-			case *ssa.IndexAddr:
-				if _, isPtr := a.X.Type().Underlying().(*types.Pointer); isPtr {
-					v = a.X
-				} else {
-					return nil
-				}
-			case *ssa.FreeVar:
-				if bind != nil {
-					if p, ok := bind(a).(*PtrVal); ok && p != nil && p.Base == PLocal {
-						return p.Cell
-					}
-				}
-				return nil
-			case *ssa.Parameter:
-				if f != nil {
-					for i, p := range fn.Params {
-						if p == a {
-							if c, ok := f.pcells[i]; ok {
-								return c
-							}
-							if pv, ok := f.params[i].(*PtrVal); ok && pv.Base == PLocal {
-								return pv.Cell
-							}
-						}
-					}
-				}
-				return nil
-			default:
-				return nil
-			}
-		}
-	}
-	var scanFn func(fn *ssa.Function, bind func(*ssa.FreeVar) Val, seen map[*ssa.Function]bool)
-	scanInstr := func(f *Frame, fn *ssa.Function, in ssa.Instruction, bind func(*ssa.FreeVar) Val, seen map[*ssa.Function]bool) {
-		switch i := in.(type) {
-		case *ssa.Store:
-			if c := rootCell(f, fn, i.Addr, bind); c != nil {
-				out[c] = true
-			}
-		case *ssa.MakeClosure:
-			cf := i.Fn.(*ssa.Function)
-			bs := i.Bindings
-			nb := func(fv *ssa.FreeVar) Val {
-				for k, v := range cf.FreeVars {
-					if v == fv {
-						// resolve binding value in the defining frame
-						switch bv := bs[k].(type) {
-						case *ssa.Alloc:
-							if f != nil {
-								if c, ok := f.cells[bv]; ok {
-									return &PtrVal{Base: PLocal, Cell: c, Nilc: tFalse}
-								}
-							}
-						case *ssa.FreeVar:
-							if bind != nil {
-								return bind(bv)
-							}
-						}
-					}
-				}
-				return nil
-			}
-			scanFn(cf, nb, seen)
-		}
-	}
-	scanFn = func(fn *ssa.Function, bind func(*ssa.FreeVar) Val, seen map[*ssa.Function]bool) {
-		if seen[fn] {
-			return
-		}
-		seen[fn] = true
-		for _, b := range fn.Blocks {
-			for _, in := range b.Instrs {
-				scanInstr(nil, fn, in, bind, seen)
-			}
-		}
-	}
-	// closures already created (cells holding ClosureVal, or frame regs): any closure of this
-	// function or its parents may be called inside the loop; scan all anonymous functions
-	// reachable from the frame chain with their actual bindings.
 	seen := map[*ssa.Function]bool{}
-	bindOf := func(f *Frame) func(*ssa.FreeVar) Val {
-		return func(fv *ssa.FreeVar) Val {
-			for k, v := range f.fn.FreeVars {
-				if v == fv {
-					return f.freeVars[k]
-				}
-			}
-			return nil
-		}
-	}
 	for b := range li.body {
 		for _, in := range b.Instrs {
-			scanInstr(fr, fr.fn, in, bindOf(fr), seen)
-		}
-	}
-	// closures created before the loop (in this frame) and called inside it
-	for v, r := range fr.regs {
-		_ = v
-		if cv, ok := r.(*ClosureVal); ok && cv.Fn != nil && len(cv.Fn.Blocks) > 0 && cv.Fn.Parent() == fr.fn {
-			b := cv
-			scanFn(cv.Fn, func(fv *ssa.FreeVar) Val {
-				for k, v := range b.Fn.FreeVars {
-					if v == fv && k < len(b.Bindings) {
-						return b.Bindings[k]
-					}
-				}
-				return nil
-			}, seen)
+			x.scanStores(fr, st, in, out, seen)
 		}
 	}
 	return out
+}
+
+// rootCellOf: the local cell an address expression points into (nil if not a local).
+func (x *Exec) rootCellOf(fr *Frame, v ssa.Value) *Cell {
+	for {
+		switch a := v.(type) {
+		case *ssa.Alloc:
+			return fr.cells[a]
+		case *ssa.FieldAddr:
+			v = a.X
+		case *ssa.IndexAddr:
+			if _, isPtr := a.X.Type().Underlying().(*types.Pointer); isPtr {
+				v = a.X
+			} else {
+				return nil
+			}
+		case *ssa.FreeVar:
+			for k, fv := range fr.fn.FreeVars {
+				if fv == a && k < len(fr.freeVars) {
+					if p, ok := fr.freeVars[k].(*PtrVal); ok && p.Base == PLocal {
+						return p.Cell
+					}
+				}
+			}
+			return nil
+		case *ssa.Parameter:
+			for i, p := range fr.fn.Params {
+				if p == a {
+					if c, ok := fr.pcells[i]; ok {
+						return c
+					}
+					if i < len(fr.params) {
+						if pv, ok := fr.params[i].(*PtrVal); ok && pv.Base == PLocal {
+							return pv.Cell
+						}
+					}
+				}
+			}
+			return nil
+		default:
+			return nil
+		}
+	}
+}
+
+// scanStores records the cells assigned by one instruction of frame fr (or of a pseudo frame
+// standing for a closure body).
+func (x *Exec) scanStores(fr *Frame, st *State, in ssa.Instruction, out map[*Cell]bool, seen map[*ssa.Function]bool) {
+	closureOf := func(v ssa.Value) *ClosureVal {
+		switch u := v.(type) {
+		case *ssa.MakeClosure:
+			cv := &ClosureVal{Fn: u.Fn.(*ssa.Function)}
+			for _, b := range u.Bindings {
+				var bv Val
+				switch bb := b.(type) {
+				case *ssa.Alloc:
+					if c, ok := fr.cells[bb]; ok {
+						bv = &PtrVal{Nilc: tFalse, Base: PLocal, Cell: c, BTyp: c.Typ, Typ: c.Typ}
+					}
+				case *ssa.FreeVar:
+					for k, fv := range fr.fn.FreeVars {
+						if fv == bb && k < len(fr.freeVars) {
+							bv = fr.freeVars[k]
+						}
+					}
+				default:
+					if r, ok := fr.regs[b]; ok {
+						bv = r
+					}
+				}
+				cv.Bindings = append(cv.Bindings, bv)
+			}
+			return cv
+		case *ssa.UnOp:
+			if c := x.rootCellOf(fr, u.X); c != nil {
+				if cv, ok := st.cells[c].(*ClosureVal); ok {
+					return cv
+				}
+			}
+		case *ssa.Function:
+			return &ClosureVal{Fn: u}
+		}
+		if r, ok := fr.regs[v]; ok {
+			if cv, ok := r.(*ClosureVal); ok {
+				return cv
+			}
+		}
+		return nil
+	}
+	scanClosure := func(cv *ClosureVal) {
+		if cv == nil || cv.Fn == nil || seen[cv.Fn] || len(cv.Fn.Blocks) == 0 {
+			return
+		}
+		if cv.Fn.Pkg != x.env.spkg && cv.Fn.Parent() == nil && cv.Fn.Synthetic == "" {
+			return
+		}
+		seen[cv.Fn] = true
+		pf := &Frame{fn: cv.Fn, cells: map[*ssa.Alloc]*Cell{}, regs: map[ssa.Value]Val{}, freeVars: cv.Bindings, pcells: map[int]*Cell{}}
+		for _, b := range cv.Fn.Blocks {
+			for _, in2 := range b.Instrs {
+				x.scanStores(pf, st, in2, out, seen)
+			}
+		}
+	}
+	switch i := in.(type) {
+	case *ssa.Store:
+		if c := x.rootCellOf(fr, i.Addr); c != nil {
+			out[c] = true
+		}
+	case *ssa.MakeClosure:
+		scanClosure(closureOf(i))
+	case *ssa.Call:
+		if !i.Call.IsInvoke() {
+			scanClosure(closureOf(i.Call.Value))
+			for _, a := range i.Call.Args {
+				if _, isSig := a.Type().Underlying().(*types.Signature); isSig {
+					scanClosure(closureOf(a))
+				}
+				// a pointer to a local passed to a callee may be written through
+				if _, isPtr := a.Type().Underlying().(*types.Pointer); isPtr {
+					if c := x.rootCellOf(fr, a); c != nil {
+						out[c] = true
+					}
+				}
+			}
+		}
+	case *ssa.Defer:
+		scanClosure(closureOf(i.Call.Value))
+	}
 }
 
 func termHasVar(t *Term, vs map[*Term]bool) bool {
@@ -917,14 +932,13 @@ func (x *Exec) enterLoop(fr *Frame, li *loopInfo, entry *State) *State {
 	auto := x.autoInvariant(fr, li)
 	// 1. invariants hold on entry
 	for _, cl := range invs {
-		g := x.evalClause(fr, entry, cl, pos, true)
-		x.assert(entry, "loop-entry", fmt.Sprintf("loop %d: %s", ord, cl.Src), g, pos, cl)
+		x.assertClause(entry, "loop-entry", fmt.Sprintf("loop %d: ", ord), x.clauseEnv(fr, entry, nil), cl, pos)
 	}
 	for _, a := range auto {
 		x.assert(entry, "loop-entry", fmt.Sprintf("loop %d: auto %s", ord, a.desc), a.eval(entry), pos, nil)
 	}
 	// 2. havoc plan
-	cells := x.cellsStoredIn(fr, li)
+	cells := x.cellsStoredIn(fr, li, entry)
 	plan := x.planHavoc(entry, cells, func(ds *State) {
 		x.runLoopBodyOnce(fr, li, ds)
 	})
@@ -958,8 +972,7 @@ func (x *Exec) backEdge(fr *Frame, li *loopInfo, st *State) {
 		x.assert(st, "loop-preserve", fmt.Sprintf("loop %d: auto %s", ord, a.desc), a.eval(st), pos, nil)
 	}
 	for _, cl := range x.loopInvariants(fr, ord) {
-		g := x.evalClause(fr, st, cl, pos, true)
-		x.assert(st, "loop-preserve", fmt.Sprintf("loop %d: %s", ord, cl.Src), g, pos, cl)
+		x.assertClause(st, "loop-preserve", fmt.Sprintf("loop %d: ", ord), x.clauseEnv(fr, st, nil), cl, pos)
 	}
 }
 
